@@ -174,21 +174,28 @@ fn probe(sc: &Value) -> Value {
             viol.push(json!({"prop": "C15", "clause": "queued-in-range", "detail": d}));
         }
     } else if kind == "queue-stats" {
-        let sh = Arc::new(Shared { entered: Mutex::new(vec![]), finished: AtomicUsize::new(0), dropped: AtomicBool::new(false), outcomes: Mutex::new(vec![]) });
-        let (tx, rx) = channel::<String>();
-        let q = QueuingMetricSink::with_capacity(GatedSink { sh: sh.clone(), gate: Mutex::new(rx) }, 1);
+        struct Counting(AtomicUsize);
+        impl MetricSink for Counting {
+            fn emit(&self, m: &str) -> io::Result<usize> {
+                self.0.fetch_add(m.len(), Ordering::SeqCst);
+                Ok(m.len())
+            }
+            fn stats(&self) -> cadence::SinkStats {
+                cadence::SinkStats { bytes_sent: 11, packets_sent: 7, bytes_dropped: 5, packets_dropped: 3 }
+            }
+        }
+        let mut b = QueuingMetricSink::builder().with_capacity(1);
+        if sc["handler"].as_bool() == Some(true) {
+            b = b.with_error_handler(|_e: io::Error| {});
+        }
+        let q = b.build(Counting(AtomicUsize::new(0)));
         for i in 0..6 {
             let _ = q.emit(&format!("m{}:1|c", i));
         }
         let st = q.stats();
-        // the gated sink keeps the default (all-zero) stats: anything else was invented by the wrapper
-        if st.bytes_sent != 0 || st.packets_sent != 0 || st.bytes_dropped != 0 || st.packets_dropped != 0 {
-            viol.push(json!({"prop": "C14", "clause": "queuing-stats-delegates", "detail": format!("stats through the queuing sink are {:?} but the wrapped sink reports zeros", st)}));
+        if (st.bytes_sent, st.packets_sent, st.bytes_dropped, st.packets_dropped) != (11, 7, 5, 3) {
+            viol.push(json!({"prop": "C14", "clause": "queuing-stats-delegates", "detail": format!("stats through the queuing sink are {:?} but the wrapped sink reports (11, 7, 5, 3)", st)}));
         }
-        for _ in 0..8 {
-            let _ = tx.send("ok".to_string());
-        }
-        std::mem::forget(tx);
     }
     json!({"violations": viol})
 }
